@@ -48,8 +48,12 @@ def run(ctx):
     st = json.loads(p.stdout.strip().splitlines()[-1])
     bad, nlines, vstates = sshdfam.validate(ctx, tp, "reasm", module="ReasmTrace", cfg="ReasmTrace.cfg")
     nsetup = sum(1 for l in open(tp) if '"setup-failed"' in l)
-    if nsetup:
+    if nsetup > max(3, len(scs) // 2000):
         raise Infra("%d scenarios could not be set up by the harness" % nsetup)
+    if nsetup:
+        # a loaded machine: a handful of scenarios whose session could not be correlated in time are left out
+        ctx.notes.append("%d scenario(s) could not be set up (left out)" % nsetup)
+        bad = [b for b in bad if b["rec"]["obs"]["ret"] != "setup-failed"]
     groups = {}
     for b in bad:
         r = b["rec"]
